@@ -21,6 +21,8 @@ PRUNE = [
     H("H_C04_prune_map", "MapOf(Bool(),Bool()) on 13/16 symbolic words -> prune -> replay", reach=["valid", "invalid", "pruned-something"], quick=Q, thorough=T),
     H("H_C04_prune_filter", "two draws of Bool().Filter(id) on 6/7 symbolic words -> prune -> replay", reach=["valid", "invalid", "pruned-something"], quick=Q, thorough=T),
     H("H_C04_prune_perm", "Permutation of 3 elements (unbiased rejection loop) on 8/10 symbolic words -> prune -> replay", reach=["valid", "invalid", "pruned-something"], quick=Q, thorough=T),
+    H("H_C04_prune_intReject", "one bounded integer draw genUintRange(min,max,bias) for any 64-bit range (span bit length: 16 classes quick / all thorough), biased and unbiased, followed by a raw 64-bit draw, on 13/20 symbolic words (up to 11/18 rejected samples) -> prune -> replay", reach=["valid", "invalid", "pruned-something"], quick=Q, thorough=T),
+    H("H_C04_prune_runeDie", "two draws of RuneFrom(5 runes) (loadedDie.roll + genIndex rejection sampling) on 16 symbolic words -> prune -> replay", reach=["valid", "invalid", "pruned-something"], thorough_only=True, thorough=T),
 ]
 
 PERSIST_ASSUME = ENGINE_ASSUME + ["package os replaced by an in-memory file system (POSIX rename atomicity, one directory tree, no concurrent writer); every call is a crash point, a write may crash leaving no / one byte / half / all but one byte",
@@ -87,6 +89,8 @@ PROPS = {
             H("H_C18_reachInt", "the same through Int64Range: all min<=v<=max (64-bit symbolic), sign coin 0 / all-ones, magnitude span of bit length B", must_reach=WITNESSES, unreach_job=_band_job, reach=["negative", "non-negative"], quick=Q, thorough=T, nodiff=True),
             H("H_C18_edges", "forcing regions for Uint64Range, all min and all spans of every bit length 1..64: bias word below Tlo (and an even data word) forces min, bias word above Thi forces max; both regions have measure >= 2^-8 (computed in the harness from the documented bias schedule, slack 2^30)", reach=["min-forced", "max-forced"], quick=Q, thorough=T),
             H("H_C18_fresh", "baseSeed() without -rapid.seed is the environment's entropy (two calls can differ, not a constant); seeds of test cases i<j<40 of one run differ for every base seed", reach=["two-calls-can-differ", "not-a-constant", "distinct"], quick=Q, thorough=T, nodiff=True),
+            H("H_C18_freshChecks", "two real checkTB runs under one test name in one process, no -rapid.seed, entropy source symbolic: the solver must find an environment in which the first test cases differ", must_reach=["two-checks-can-differ", "not-a-constant"], unreach_job=lambda label: {"harness": "H_C18_nativeFresh", "vals": {}}, quick=Q, thorough=T, nodiff=True),
+            H("H_C18_nativeFresh", "native-only confirmation (4 pairs of real Check runs), no-op under gosym", quick=Q, thorough=T, nodiff=True),
             H("H_C18_nativeBand", "native-only confirmation sweep (400000 draws), no-op under gosym", quick=Q, thorough=T, nodiff=True),
         ],
         "assumptions": ENGINE_ASSUME + ["genGeom summarised as a monotone step function (see C03)", "probability statements are reduced to a solver-proved forcing region plus its exactly computed measure under uniform words",
